@@ -24,6 +24,8 @@
 #include <nano/dataset/iterator.h>
 #include <nano/gboost/function.h>
 #include <nano/generator/elemwise_identity.h>
+#include <nano/core/reduce.h>
+#include <nano/linear/accumulator.h>
 #include <nano/linear/function.h>
 #include <nano/loss.h>
 #include <nano/machine/cluster.h>
@@ -679,11 +681,66 @@ std::string run(toks_t& toks, std::string& aug)
     }
     return out.str();
 }
+// ---- `reduce sum <samples> <W> <D> <K> {<worker> <v_1 … v_D>}*K`: nano::sum_reduce (include/nano/core/reduce.h) on W real
+//      linear::accumulator_t objects holding the K chunk contributions of an explicit schedule (D = 1 + tsize + tsize*isize, tsize = 1)
+std::string op_reduce_sum(toks_t& toks)
+{
+    const auto samples = toks.i64();
+    const auto W       = toks.i64();
+    const auto D       = toks.i64();
+    const auto K       = toks.i64();
+    if (samples < 1 || W < 1 || W > 64 || D < 2 || D > 64 || K < 0 || K > 10000)
+    {
+        throw bad_op("reduce sum arguments");
+    }
+    const auto tsize        = tensor_size_t{1};
+    const auto isize        = static_cast<tensor_size_t>(D - 2);
+    auto       accumulators = linear::accumulators_t(static_cast<size_t>(W), linear::accumulator_t{std::max(isize, tensor_size_t{1}), tsize});
+    for (auto& accumulator : accumulators)
+    {
+        accumulator.clear();
+    }
+    for (int64_t k = 0; k < K; ++k)
+    {
+        const auto w = toks.i64();
+        if (w < 0 || w >= W)
+        {
+            throw bad_op("worker");
+        }
+        auto& accumulator = accumulators[static_cast<size_t>(w)];
+        accumulator.m_vm1 += toks.f();
+        accumulator.m_gb1(0) += toks.f();
+        for (tensor_size_t i = 0; i < isize; ++i)
+        {
+            accumulator.m_gW1(0, i) += toks.f();
+        }
+    }
+    if (!toks.done())
+    {
+        throw bad_op("trailing tokens");
+    }
+    const auto& reduced = ::nano::sum_reduce(accumulators, static_cast<tensor_size_t>(samples));
+    out_t       out;
+    out << "ok" << static_cast<long long>(D) << reduced.m_vm1 << reduced.m_gb1(0);
+    for (tensor_size_t i = 0; i < isize; ++i)
+    {
+        out << reduced.m_gW1(0, i);
+    }
+    return out.str();
+}
 } // namespace
 
 std::string vh::execute(toks_t& toks, std::string& aug)
 {
     const auto fam = toks.s();
+    if (fam == "reduce")
+    {
+        if (toks.s() != "sum")
+        {
+            throw bad_op("reduce kind");
+        }
+        return op_reduce_sum(toks);
+    }
     if (fam != "objective")
     {
         throw bad_op("family");
